@@ -76,7 +76,7 @@ Definition batch_ack_ok (s s' : lstate) (a : ack) : Prop :=
     | PAll => names_stored (l_log s') a /\ (l_min_isr s' <= length (l_isr s'))%nat /\ (forall r o, In (r, o) (l_isr s') -> ak_offset a <= o) /\ ak_offset a <= l_hw s'
     | PNone => False
     end
-  | ATooLarge | AEncryption => False
+  | ATooLarge | AEncryption | ARefused => False
   | AIncorrectOffset => l_log s' = l_log s
   end.
 
@@ -191,26 +191,33 @@ Qed.
 
 Definition is_regain (x : lstep) : bool := match x with LRegain _ _ _ => true | _ => false end.
 
+Lemma publish_step_acks s ms s' out : QInv s -> publish_step s ms = (s', out) ->
+  QInv s' /\ (exists st, l_log s' = l_log s ++ st) /\ forall a, In a out -> ack_meaning s s' a.
+Proof.
+  intros HQ H. unfold publish_step in H.
+  set (sealed := filter (fun m => negb (pm_seal_fails m)) ms) in *. set (good := filter (fun m => negb (pm_too_large m)) sealed) in *.
+  assert (Hn : forall (k : ackkind) (l : list pmsg) a, k <> AOk -> In a (map (fun m => mkAck (pm_corr m) (pm_policy m) 0 k) l) -> ack_meaning s s' a).
+  { intros k l a Hk Ha. apply in_map_iff in Ha. destruct Ha as (m & <- & _). unfold ack_meaning. cbn [ak_kind]. destruct k; [contradiction|exact I..]. }
+  destruct (l_cc s).
+  + destruct (store_each s good) as [s1 acks] eqn:Es. injection H as <- <-.
+    destruct (store_each_spec good s s1 acks HQ Es) as (HQ1 & _ & (st & Hst & _) & Hacks). split; [exact HQ1|]. split; [exists st; exact Hst|].
+    intros a Ha. apply in_app_or in Ha. destruct Ha as [Ha|Ha]; [eapply (Hn AEncryption); [discriminate|exact Ha]|].
+    apply in_app_or in Ha. destruct Ha as [Ha|Ha]; [eapply (Hn ATooLarge); [discriminate|exact Ha]|apply Hacks; exact Ha].
+  + destruct (store_batch s good) as [s1 acks] eqn:Es. injection H as <- <-.
+    destruct (store_batch_spec s _ s1 acks HQ Es) as (HQ1 & (st & Hst & _) & Hacks). split; [exact HQ1|]. split; [exists st; exact Hst|].
+    intros a Ha. apply in_app_or in Ha. destruct Ha as [Ha|Ha]; [eapply (Hn AEncryption); [discriminate|exact Ha]|].
+    apply in_app_or in Ha. destruct Ha as [Ha|Ha]; [eapply (Hn ATooLarge); [discriminate|exact Ha]|].
+    specialize (Hacks a Ha). unfold ack_meaning, batch_ack_ok in *. destruct (ak_kind a); [exact Hacks|exact I..].
+Qed.
+
 Theorem step_acks s x s' out : QInv s -> step s x = (s', out) ->
   QInv s' /\ (is_regain x = false -> exists st, l_log s' = l_log s ++ st) /\ forall a, In a out -> ack_meaning s s' a.
 Proof.
-  intros HQ H. destruct x as [ms|r o|r|r|keep foreign hw]; cbn [step] in H; cbn [is_regain];
-    [| | | |injection H as <- <-; split; [intros a []|split; [discriminate|intros a []]]];
+  intros HQ H. destruct x as [ms|r o|r|r|keep foreign hw|ms]; cbn [step] in H; cbn [is_regain];
+    [| | | |injection H as <- <-; split; [intros a []|split; [discriminate|intros a []]]|];
     cut (QInv s' /\ (exists st, l_log s' = l_log s ++ st) /\ forall a, In a out -> ack_meaning s s' a);
     try (intros (C1 & C2 & C3); split; [exact C1|split; [intros _; exact C2|exact C3]]).
-  - set (sealed := filter (fun m => negb (pm_seal_fails m)) ms) in *. set (good := filter (fun m => negb (pm_too_large m)) sealed) in *.
-    assert (Hn : forall (k : ackkind) (l : list pmsg) a, k <> AOk -> In a (map (fun m => mkAck (pm_corr m) (pm_policy m) 0 k) l) -> ack_meaning s s' a).
-    { intros k l a Hk Ha. apply in_map_iff in Ha. destruct Ha as (m & <- & _). unfold ack_meaning. cbn [ak_kind]. destruct k; [contradiction|exact I..]. }
-    destruct (l_cc s).
-    + destruct (store_each s good) as [s1 acks] eqn:Es. injection H as <- <-.
-      destruct (store_each_spec good s s1 acks HQ Es) as (HQ1 & _ & (st & Hst & _) & Hacks). split; [exact HQ1|]. split; [exists st; exact Hst|].
-      intros a Ha. apply in_app_or in Ha. destruct Ha as [Ha|Ha]; [eapply (Hn AEncryption); [discriminate|exact Ha]|].
-      apply in_app_or in Ha. destruct Ha as [Ha|Ha]; [eapply (Hn ATooLarge); [discriminate|exact Ha]|apply Hacks; exact Ha].
-    + destruct (store_batch s good) as [s1 acks] eqn:Es. injection H as <- <-.
-      destruct (store_batch_spec s _ s1 acks HQ Es) as (HQ1 & (st & Hst & _) & Hacks). split; [exact HQ1|]. split; [exists st; exact Hst|].
-      intros a Ha. apply in_app_or in Ha. destruct Ha as [Ha|Ha]; [eapply (Hn AEncryption); [discriminate|exact Ha]|].
-      apply in_app_or in Ha. destruct Ha as [Ha|Ha]; [eapply (Hn ATooLarge); [discriminate|exact Ha]|].
-      specialize (Hacks a Ha). unfold ack_meaning, batch_ack_ok in *. destruct (ak_kind a); [exact Hacks|exact I..].
+  - apply (publish_step_acks s ms s' out HQ H).
   - destruct (existsb (N.eqb r) (l_replicas s) && negb (N.eqb r 0)); [|injection H as <- <-; split; [exact HQ|split; [exists []; rewrite app_nil_r; reflexivity|intros a []]]].
     match type of H with commit ?S1 = _ => set (s1 := S1) in * end. assert (HQ1 : QInv s1) by exact HQ.
     destruct (commit_spec s1 s' out H) as (Hl & Hi & Hm & Hh & Hq & Hout). split; [apply (commit_qinv s1 s' out HQ1 H)|]. split; [exists []; rewrite app_nil_r; exact Hl|].
@@ -219,6 +226,10 @@ Proof.
     destruct (commit_spec s1 s' out H) as (Hl & Hi & Hm & Hh & Hq & Hout). split; [apply (commit_qinv s1 s' out HQ1 H)|]. split; [exists []; rewrite app_nil_r; exact Hl|].
     intros a Ha. destruct (Hout a Ha) as (Hq' & Hp & Hmin & Hall & Hhw). destruct (HQ1 a Hq') as [H1 H2]. unfold ack_meaning. rewrite H1, Hp, Hl, Hi, Hm. split; [exact H2|split; [exact Hmin|split; [exact Hall|exact Hhw]]].
   - destruct (existsb (N.eqb r) (map fst (l_isr s))); injection H as <- <-; (split; [exact HQ|split; [exists []; rewrite app_nil_r; reflexivity|intros a []]]).
+  - destruct (publish_step s (filter (fun m => negb (api_refuses s m)) ms)) as [s1 o1] eqn:Ep. injection H as <- <-.
+    destruct (publish_step_acks s _ s1 o1 HQ Ep) as (C1 & C2 & C3). split; [exact C1|]. split; [exact C2|].
+    intros a Ha. apply in_app_or in Ha. destruct Ha as [Ha|Ha]; [|apply C3; exact Ha].
+    apply in_map_iff in Ha. destruct Ha as (m & <- & _). exact I.
 Qed.
 
 (* rejected messages are not stored: what a publish step appends are messages of the batch that
@@ -227,7 +238,7 @@ Qed.
 Theorem step_stores_only_accepted s ms s' out : QInv s -> step s (LPublish ms) = (s', out) ->
   exists st, l_log s' = l_log s ++ st /\ forall m, In m st -> In m ms /\ pm_too_large m = false /\ pm_seal_fails m = false.
 Proof.
-  intros HQ. cbn [step]. set (sealed := filter (fun m => negb (pm_seal_fails m)) ms). set (good := filter (fun m => negb (pm_too_large m)) sealed).
+  intros HQ. cbn [step]. unfold publish_step. set (sealed := filter (fun m => negb (pm_seal_fails m)) ms). set (good := filter (fun m => negb (pm_too_large m)) sealed).
   assert (Hgood : forall m, In m good -> In m ms /\ pm_too_large m = false /\ pm_seal_fails m = false).
   { intros m Hm. apply filter_In in Hm. destruct Hm as [H1 H2]. apply filter_In in H1. destruct H1 as [H0 H1]. split; [exact H0|].
     split; [destruct (pm_too_large m); [discriminate|reflexivity]|destruct (pm_seal_fails m); [discriminate|reflexivity]]. }
@@ -245,7 +256,7 @@ Theorem refused_messages_are_nacked s ms s' out m : step s (LPublish ms) = (s', 
   (pm_seal_fails m = true -> In (mkAck (pm_corr m) (pm_policy m) 0 AEncryption) out) /\
   (pm_seal_fails m = false -> pm_too_large m = true -> In (mkAck (pm_corr m) (pm_policy m) 0 ATooLarge) out).
 Proof.
-  cbn [step]. set (sealed := filter (fun m => negb (pm_seal_fails m)) ms). set (good := filter (fun m => negb (pm_too_large m)) sealed).
+  cbn [step]. unfold publish_step. set (sealed := filter (fun m => negb (pm_seal_fails m)) ms). set (good := filter (fun m => negb (pm_too_large m)) sealed).
   destruct (if l_cc s then store_each s good else store_batch s good) as [s1 acks]. intros [= <- <-] Hin. split.
   - intros Hs. apply in_or_app. left. apply in_map_iff. exists m. split; [reflexivity|]. apply filter_In. split; assumption.
   - intros Hs Hl. apply in_or_app. right. apply in_or_app. left. apply in_map_iff. exists m. split; [reflexivity|].
